@@ -98,7 +98,7 @@ def gen_cases(rng, tier):
         for ents in exhaustive_core(shape, maxent):
             cases.append({'kind': 'get', 'obj': G.gen_object(rng, shape, nderiv=rng.choice([0, 0, 0, 1])),
                           'index': ents, 'src': 'core'})
-    nrand = 3500 if tier == 'quick' else 45000
+    nrand = 12000 if tier == 'quick' else 120000
     for _ in range(nrand):
         shape = rng.choice(G.LEAD_SHAPES)
         r = rng.random()
